@@ -312,13 +312,29 @@ VALUE_TOKENS = {
 
 
 def related_types(s, slot_type):
+    """Type names worth trying in a slot of `slot_type`: the type itself, for an abstract slot its
+    implementers and the types that merely extend an implementer, for a concrete one its extenders."""
+    tt = type_table(s)
+    out = [slot_type]
     if is_abstract(s, slot_type):
-        return [slot_type, "i1", "i2", "e1"]
-    if slot_type == "l1":
-        return ["l1", "l2"]
-    if slot_type == "l2":
-        return ["l2", "l1"]
-    return [slot_type]
+        out += [n for n in ("i1", "i2", "e1") if n in tt]
+        impl = implementers(s, slot_type)
+        out += impl
+        out += [t.name for t in s.types if isinstance(t, SType) and t.extends in impl]
+    else:
+        if slot_type == "l1":
+            out.append("l2")
+        if slot_type == "l2":
+            out.append("l1")
+        out += [t.name for t in s.types if isinstance(t, SType) and t.extends == slot_type]
+        b = tt.get(slot_type)
+        if isinstance(b, SType) and b.extends:
+            out.append(b.extends)
+    res = []
+    for n in out:
+        if n not in res:
+            res.append(n)
+    return res[:6]
 
 
 def vocabulary(s, tname, can_close, rich=True):
